@@ -355,18 +355,13 @@ def _relevant_slice(ob):
 
 
 def _guarded_check(solver, budget_ms):
-    """solver.check() with a watchdog: z3 does not always honour its own timeout (preprocessing of lambdas/quantifiers);
-    a timer thread interrupts the context after budget + 5 s, which makes check() return unknown."""
-    import threading
-    t = threading.Timer(budget_ms / 1000.0 + 5.0, lambda: solver.ctx.interrupt())
-    t.daemon = True
-    t.start()
+    """solver.check(); z3's own timeout is relied upon (an interrupt from a watchdog thread crashed worker processes).
+    A solver call that overruns is handled by the per-task time limit of the path scheduler (verify.verify_many)."""
     try:
         return solver.check()
     except z3.Z3Exception:
         return z3.unknown
-    finally:
-        t.cancel()
+
 
 def _solve(ob, axioms, extra, timeout_ms):
     s = z3.Solver()
@@ -405,8 +400,8 @@ def _check_one(i: int):
             return i, 'unsat', None, time.time() - t0, 'z3', None
         if all(not _hq(p) for p in ob.pc):
             return i, ('sat' if r0 == z3.sat else 'unknown'), None, time.time() - t0, 'z3', None
-        s1, r1 = _solve(ob, ground_ax, [], 2000)
-        return i, ('unsat' if r1 == z3.unsat else 'sat' if r1 == z3.sat else 'unknown'), None, time.time() - t0, 'z3', None
+        # the quantified part is not probed (z3 was seen to block on such satisfiable queries regardless of its timeout)
+        return i, ('sat*' if r0 == z3.sat else 'unknown'), None, time.time() - t0, 'z3 (quantifier-free part only)', None
     # phase 0: only the quantifier-free part of the path condition (fewer assumptions: unsat is sound) - most obligations need no more
     qf_pc = [p for p in ob.pc if not _has_quantifier(p)]
     if len(qf_pc) < len(ob.pc):
